@@ -197,6 +197,15 @@ func (c *SRPClient) Compute(salt, B []byte) error {
 	return nil
 }
 
+// NilKeyM1 is the client proof anybody can compute for an SRP server session whose key was never set (K = empty):
+// H(H(N) xor H(g), H(I), s, A, B, "") with A, B and the xor as minimal big-endian integers.
+func NilKeyM1(user string, salt, A, B []byte) []byte {
+	hn := new(big.Int).SetBytes(h512(srpN.Bytes()))
+	hg := new(big.Int).SetBytes(h512(srpG.Bytes()))
+	x := new(big.Int).Xor(hn, hg)
+	return h512(x.Bytes(), h512([]byte(user)), salt, new(big.Int).SetBytes(A).Bytes(), new(big.Int).SetBytes(B).Bytes(), nil)
+}
+
 func (c *SRPClient) VerifyM2(m2 []byte) bool {
 	return hmac.Equal(m2, h512(c.Abytes, c.M1, c.K))
 }
